@@ -62,6 +62,13 @@ func (c *FnCtx) execCallWith(bc *blockCtx, cc *ssa.CallCommon, fnVal Val, args [
 	if v, ok := c.specialCall(bc, name, cc, fnVal, args, pos); ok {
 		return v
 	}
+	if callee != nil && callee.Pkg != nil {
+		pp := callee.Pkg.Pkg.Path()
+		if strings.HasPrefix(pp, "github.com/ipfs/go-log") || strings.HasPrefix(pp, "go.uber.org/zap") {
+			c.note("logging calls have no effect on modelled state (assumed)")
+			return c.havocResult(bc, cc, "log")
+		}
+	}
 	// contract lookup
 	var spec *FuncSpec
 	switch {
@@ -224,7 +231,7 @@ func (c *FnCtx) execBuiltin(bc *blockCtx, b *ssa.Builtin, cc *ssa.CallCommon, ar
 		case KSlice:
 			return mkInt(args[0].Fs[2].T, it)
 		case KStr:
-			return mkInt("(str.len "+args[0].T+")", it)
+			return mkInt("(gstr.len "+args[0].T+")", it)
 		case KRef:
 			if mt, ok := cc.Args[0].Type().Underlying().(*types.Map); ok {
 				return mkInt(sIte("(= "+args[0].T+" 0)", "0", c.mapCard(bc.st, mt, args[0].T)), it)
@@ -295,7 +302,7 @@ func (c *FnCtx) execAppend(bc *blockCtx, cc *ssa.CallCommon, args []Val, pos tok
 	case KStr:
 		// append([]byte, string...)
 		srcElemHeap = false
-		sLen = "(str.len " + src.T + ")"
+		sLen = "(gstr.len " + src.T + ")"
 	default:
 		return poison("append of unmodelled source")
 	}
@@ -321,7 +328,7 @@ func (c *FnCtx) execAppend(bc *blockCtx, cc *ssa.CallCommon, args []Val, pos tok
 		if srcElemHeap {
 			srcSel = "(select (select " + a + " " + sArr + ") (+ " + sOff + " (- k!a (+ " + rOffN + " " + ln + "))))"
 		} else {
-			srcSel = "(str.at " + src.T + " (- k!a (+ " + rOffN + " " + ln + ")))"
+			srcSel = "(gstr.at " + src.T + " (- k!a (+ " + rOffN + " " + ln + ")))"
 		}
 		oldSel := sIte(inplace, "(select (select "+a+" "+arr+") k!a)", "(select (select "+a+" "+arr+") (+ "+off+" k!a))")
 		// in the fresh case positions beyond the copied prefix are zero (unspecified but irrelevant)
